@@ -41,6 +41,8 @@ func propC04(c *Ctx, r *Report) {
 	// a one-time issuance is decided from the height, not from what this process remembers (shared engine)
 	ruleNoCarriedReads(c, newSharedAnalysis(c), r, "C04-R15/no-carried-state", c.RSync, carriedAllowedAverages, "block processing")
 	ruleBurnTransferEra(c, r, "C04-R16/burn-transfer-era")
+	rulePayoutsPure(c, r, "C04-R17/payouts-pure")
+	ruleBurnTable(c, r, "C04-R18/burn-table")
 
 	r.rule("C04-R1/balance-writers", 2, "only the two mutators write pn_addresses")
 	ruleTableWriters(c, cat, r, "C04-R1/balance-writers", "pn_addresses", []writerSpec{
